@@ -2,7 +2,7 @@
 import ast
 
 from .. import util
-from ..interp import Interp, Path, exc_value, is_exc, show, strip_sites, subterms, NONE
+from ..interp import Interp, Path, exc_value, is_exc, show, strip_sites, subterms, NONE, iteration_layers
 from ..report import Undecided, AnchorMissing
 
 PARTIAL = util.PARTIAL
@@ -98,7 +98,7 @@ def decorator_effect(prog, deco_qual) -> DecoratorEffect:
                             if t.attr == "__new__":
                                 replaced = True
                     if isinstance(t, ast.Name) and _is_signature_of(val, param):
-                        sig_vars[t.id] = "raw-class" if not replaced else "replaced-class"
+                        sig_vars[t.id] = _sig_source(val, param) if (not replaced or _sig_source(val, param) == "raw-init-function") else "replaced-class"
                     if isinstance(t, ast.Attribute) and isinstance(t.value, ast.Name) and t.value.id in local_funcs:
                         if t.attr == "__signature__":
                             eff.signature[t.value.id] = _classify_sig_expr(val, param, sig_vars, replaced)
@@ -113,11 +113,18 @@ FuncTypes = (ast.FunctionDef, ast.AsyncFunctionDef)
 
 
 def _is_signature_of(val, param):
-    """inspect.signature(raw_cls) / Signature.from_callable(raw_cls)"""
-    if isinstance(val, ast.Call) and val.args and isinstance(val.args[0], ast.Name) and val.args[0].id == param:
+    """inspect.signature(raw_cls) / Signature.from_callable(raw_cls)  (also of raw_cls.__init__: see _sig_source)"""
+    if isinstance(val, ast.Call) and val.args:
         d = util.dotted(val.func) or ""
-        return d.split(".")[-1] in ("signature", "from_callable")
+        if d.split(".")[-1] in ("signature", "from_callable"):
+            a = util.dotted(val.args[0])
+            return a in (param, param + ".__init__")
     return False
+
+
+def _sig_source(val, param):
+    a = util.dotted(val.args[0])
+    return "raw-class" if a == param else "raw-init-function"
 
 
 def _classify_sig_expr(val, param, sig_vars, replaced):
@@ -128,7 +135,7 @@ def _classify_sig_expr(val, param, sig_vars, replaced):
         if isinstance(base, ast.Name) and base.id in sig_vars:
             src = sig_vars[base.id]
         elif _is_signature_of(base, param):
-            src = "raw-class" if not replaced else "replaced-class"
+            src = _sig_source(base, param) if (not replaced or _sig_source(base, param) == "raw-init-function") else "replaced-class"
         plist = None
         for kw in val.keywords:
             if kw.arg == "parameters":
@@ -136,7 +143,7 @@ def _classify_sig_expr(val, param, sig_vars, replaced):
         if src and isinstance(plist, (ast.List, ast.Tuple)) and len(plist.elts) == 2 and isinstance(plist.elts[1], ast.Starred):
             star = util.unparse(plist.elts[1].value)
             if star.endswith(".parameters.values()"):
-                return src if src == "raw-class" else "unknown"
+                return src if src in ("raw-class", "raw-init-function") else "unknown"
     return "unknown"
 
 
@@ -168,6 +175,11 @@ def signature_model(prog, cls, chk=None, ignore_decorators=False):
                     if published == "raw-init":
                         init = prog.lookup_method(c, "__init__")
                         return ("__new__ wrapping __init__", c.qual, fn_params(init.node) if init else [])
+                    if published == "raw-init-function":
+                        # signature of the *unbound* __init__ (with self) behind one extra leading parameter:
+                        # only the extra parameter is dropped, `self` stays as a bindable slot
+                        init = prog.lookup_method(c, "__init__")
+                        return ("__new__ publishing the unbound __init__ signature (self included)", c.qual, fn_params(init.node, drop_first=False) if init else [])
                     if published == "unknown":
                         raise Undecided("the signature published on the replaced __new__ of %s is not recognised" % c.qual, eff.sig_node.get(fname))
         if new_node is not None:
@@ -669,23 +681,14 @@ def check_fold(chk, name, fi, o, t, label):
             chk.bad("O4.7", name, "%s: binding %d uses %s, not the loop item" % (label, k, show(layer)), node=fi.node, stmt="fold-item", input=label)
             return False
         src = layer[1]
-        rev = False
-        if src[0] == "call" and src[1] == ("glob", "ext:builtins.reversed") and len(src[2]) == 1:
-            rev = True
-            src = src[2][0]
-            if src[0] == "call" and src[1] in (("glob", "ext:builtins.list"), ("glob", "ext:builtins.tuple")):
-                src = src[2][0]
-        elif src[0] == "sub" and src[1] == TG and src[2][0] == "slice" and src[2][3] == ("const", -1):
-            # targets[-2::-1]
-            if src[2][1] == ("const", -2) and src[2][2] == ("const", None):
-                continue
-            chk.bad("O4.7", name, "%s: reverse slice %s does not cover exactly the targets before the last" % (label, show(src)), node=fi.node, stmt="fold-slice", input=label)
-            return False
-        if not rev:
+        if src[0] == "sub" and src[1] == TG and src[2][0] == "slice" and src[2][3] == ("const", -1) and src[2][1] == ("const", -2) and src[2][2] == ("const", None):
+            continue  # targets[-2::-1]
+        layers, src = iteration_layers(src)
+        if layers.count("reversed") % 2 != 1:
             chk.bad(
                 "O4.7",
                 name,
-                "%s: the remaining targets are bound in FORWARD order (%s): the chain a >> b >> c >> pool is nested as b(a(c(pool))) instead of a(b(c(pool)))" % (label, show(src)),
+                "%s: the remaining targets are bound in FORWARD order (%s): the chain a >> b >> c >> pool is nested as b(a(c(pool))) instead of a(b(c(pool)))" % (label, show(layer[1])),
                 node=fi.node,
                 stmt="fold-forward",
                 input=label,
